@@ -123,6 +123,12 @@ struct J {
 // ---------------------------------------------------------------- case context
 struct Violation { std::string monitor, key, detail; };
 
+// Object life cycle used by Pipeline for the current case: 0 = construct each object right before it is computed (the tutorial's order),
+// 1 = "declare first": every object of the workflow is constructed up front - before the symbolic Hamiltonian is prepared, the
+// symmetry analysis has run or anything was diagonalised - and the prepare()/compute() stages run afterwards in the documented order.
+// All constructors take references only, so both orders are legal and must give the same results.  Set per case by main().
+inline int& lifecycle_mode() { static int m = 0; return m; }
+
 struct Ctx {
     uint64_t seed = 1; std::string tier = "quick"; std::string driver; long k = 0; bool replay = false;
     Rng rng;
